@@ -21,7 +21,8 @@ def instances(full=False):
                     out.append((kind, t, tuple([None] * r), ks))
     # compile-time valued slices, tuples, rank 4, static source extents (fewer index types)
     extra = ['t', 'I', 'R', 'S', 'tI', 'It', 'fR', 'Rf', 'RI', 'IR', 'Sf', 'fS', 'SI', 'tS', 'ft', 'tf',
-             'Q', 'fQ', 'Qf', 'QI', 'iQ', 'U', 'Uf', 'fU', 'Ur', 'rU', 'UU', 'Ui', 'iU', 'fUr', 'Z', 'Zf', 'fZ', 'rZ', 'ffI', 'Rff', 'ffR', 'IfR', 'fSI', 'tIf', 'ifrs', 'ffri', 'irff', 'sfif', 'ffff', 'iiii', 'rfii', 'iifr']
+             'Q', 'fQ', 'Qf', 'QI', 'iQ', 'U', 'Uf', 'fU', 'Ur', 'rU', 'UU', 'Ui', 'iU', 'fUr', 'Z', 'Zf', 'fZ', 'rZ', 'ffI', 'Rff', 'ffR', 'IfR', 'fSI', 'tIf', 'ifrs', 'ffri', 'irff', 'sfif', 'ffff', 'iiii', 'rfii', 'iifr',
+             'fffr', 'rfff', 'iiff', 'fffi', 'sfff', 'fffs', 'ffrii', 'iirff', 'fffff', 'ifffr']      # rank 4-5: layout-preserving and nearly-preserving shapes
     for t in ('i32', 'u16', 'i64'):
         for ks in extra:
             for kind in ('left', 'right', 'stride'):
